@@ -13,7 +13,7 @@ import (
 
 func init() {
 	register("C12", "Query formatting: (R1) every syntactic field the parser writes on an executable node (operations, variable definitions, fields, spreads, inline fragments, fragment definitions, arguments, directives, values, types) is read by the formatter's code (positions, comments and validation links excepted); (R2) string values are written only through a quoting function whose escape alphabet is a subset of what the lexer decodes — the Go-syntax strconv.Quote family (\\a \\v \\x \\U) is not, and raw or block-string emission of a value is not escape-complete; (R3) every branch of the formatter that decides whether a parsed piece is printed tests only presence (nil / empty), formatter options, built-in flags, the node's own kind, or loop bounds — a test on the content of a child (its kind, its name) drops or changes pieces of some documents; (R4) FormatSelection and Value.String are exhaustive over their kinds.", runC12)
-	register("C13", "Schema formatting: (R1) every syntactic field the parser writes on a type-system node, and every field ValidateSchemaDocument writes on ast.Schema, is read by the formatter (positions, comments, BuiltIn and derived relations excepted); (R2) the shared string writer of C12.R2 (default values, directive arguments); (R3) the text written between block-string delimiters passes a replacement of the delimiter by its escape; (R4) the guard discipline of C12.R3 over the schema printers (suppression only by BuiltIn flags, the introspection prefix, presence, options); (R5) the loader's inference of default roots is guarded by exactly 'no schema definition, root unset, type exists', the reader half of FormatSchema omitting the schema block.", runC13)
+	register("C13", "Schema formatting: (R1) every syntactic field the parser writes on a type-system node, and every field ValidateSchemaDocument writes on ast.Schema, is read by the formatter (positions, comments, BuiltIn and derived relations excepted); (R2) the shared string writer of C12.R2 (default values, directive arguments); (R3) the text written between block-string delimiters passes a replacement of the delimiter by its escape; (R4) the guard discipline of C12.R3 over the schema printers (suppression only by BuiltIn flags, the introspection prefix, presence, options); (R5) the loader's inference of default roots is guarded by exactly 'no schema definition, root unset, type exists', the reader half of FormatSchema omitting the schema block; (R7) the writer half: FormatSchema's root writes are guarded only by the root being set and by conditions common to all three.", runC13)
 }
 
 // fieldReads: (struct, field) pairs read in the given functions.
@@ -664,6 +664,9 @@ func runC13(c *Ctx) {
 
 	r5 := c.Rule("R5", "the loader infers default roots exactly when the formatter may have omitted the schema block", 3)
 	rootInferenceRule(c, r5)
+
+	r7 := c.Rule("R7", "when FormatSchema writes the schema definition it writes every root that is set", 3)
+	rootBlockRule(c, r7)
 
 	r6 := c.Rule("R6", "the schema printers never write two name-like tokens without a separator", 40)
 	tokenSeparationRule(c, r6, []string{"FormatSchema", "FormatSchemaDocument"})
